@@ -494,8 +494,10 @@ func (r *sessRun) sendReply(c string, kind string) {
 			case 1:
 				m.SetMtype(9)
 			case 2:
+				// (the call completes with Bad Message and the session lives on: kind "badbody" for Layer P)
 				m.SetBodyCodec('j')
 				m.SetBody([]byte("{{{ not json"))
+				kind = "badbody"
 			}
 		}
 	}
@@ -503,7 +505,7 @@ func (r *sessRun) sendReply(c string, kind string) {
 	if err == nil {
 		r.sentq = append(r.sentq, [2]int32{1, seq})
 		r.replied[c] = true
-		if kind != "good" {
+		if kind != "good" && kind != "badbody" {
 			r.anyBad = true
 		}
 	}
